@@ -298,6 +298,33 @@ func (ck *checker) repository(s string, j judged) {
 			}
 		}
 	}
+	// a Repository made from the whole accepted reference (tag or digest included) still names the
+	// same registry/repository: every form resolves as it does on the plain base
+	if j.ref != "" && len(forms) > 0 {
+		full, err := remote.NewRepository(s)
+		c.Evals++
+		if err != nil {
+			ck.violation("NewRepository refuses a grammatical reference that carries a tag or digest",
+				fmt.Sprintf("NewRepository(%s): %v", short(s), err))
+			return
+		}
+		for _, f := range forms {
+			c.Evals++
+			c.Count("repository_parse_calls", 1)
+			got, err := full.ParseReference(f.in)
+			where := fmt.Sprintf("input %s\nRepository made by NewRepository from the input itself (Reference %+v), %s form %s", short(s), full.Reference, f.name, short(f.in))
+			if err != nil {
+				ck.violation("Repository.ParseReference refuses the "+f.name+" form on a Repository whose own reference carries a tag or digest",
+					where+"\nerror: "+err.Error())
+				return
+			}
+			if want := (registry.Reference{Registry: j.reg, Repository: j.repo, Reference: j.ref}); got != want {
+				ck.violation("Repository.ParseReference resolves the "+f.name+" form to another reference on a Repository whose own reference carries a tag or digest",
+					where+fmt.Sprintf("\nexpected %+v\nreturned %+v", want, got))
+				return
+			}
+		}
+	}
 	ck.urls(ctx, s, j, sameRepo)
 }
 
